@@ -990,11 +990,11 @@ pub fn exec(w: &mut World, op: &J) -> StepOut {
                     }
                     w.slots.insert(nid(uid, 0), Slot { real: Real::B(b), model, origin: Origin::Owner(oi) });
                 }
-                Out::Panic(_) => {
+                Out::Panic(m) => {
                     so.outcome = "panic";
                     w.probes.hit("owner_as_ref_panic");
                     if !pan {
-                        w.v(&["C01"], "unexpected-panic", "from_owner panicked".into());
+                        w.v(&["C01"], "unexpected-panic", format!("from_owner panicked: {}", m));
                     }
                 }
             }
